@@ -4,8 +4,8 @@
 package c01
 
 import (
-	"strings"
 	"fmt"
+	"strings"
 	"testing"
 
 	"pgregory.net/rapid"
